@@ -1553,3 +1553,9 @@ def install():
     sys.modules["numpy.strings"] = strings
     sys.modules["numpy.random"] = random
     return m
+
+def datetime_data(dt):
+    """(unit, count) of a datetime64 / timedelta64 dtype; multiples of a unit are outside the model"""
+    d = _as_dtype(dt)
+    if d.kind not in "Mm": raise TypeError("cannot get datetime metadata from non-datetime type")
+    return (d.unit, 1)
